@@ -204,6 +204,8 @@ class Runner:
             return ['/sync', 7]
         if cm == 'func':
             return lambda b, *_: ['/b_query', b.bufnum]
+        if cm == 'state':       # reads the buffer's own state: allocate again with the same size
+            return lambda b, *_: ['/b_alloc', b.bufnum, b.frames, b.channels]
         return None
 
     def call(self, op):
